@@ -110,7 +110,9 @@ class Driver:
         # 0. confirm
         base = self.run(plan, run_seed)
         if not self._has(base, key):
-            return None, f"violation {signature} did not reproduce from (plan, seed) in a fresh child: {base.get('outcome')} {base.get('error', '')}"
+            base = self.run(plan, run_seed)
+        if not self._has(base, key):
+            return None, f"UNCONFIRMED violation {signature} did not reproduce from (plan, seed) in two fresh children: {base.get('outcome')} {base.get('error', '')}"
         rounds = 0
         deadline = time.monotonic() + float(os.environ.get("VERIF_MIN_BUDGET", "240"))
         # 1. plan simplification (greedy, parallel candidates)
@@ -359,6 +361,12 @@ def check_main(engine, prop, tiers, argv=None):
             print(f"# minimising {entry['signature']} (run {entry['run']}, seen in {entry['count']} runs)")
             sys.stdout.flush()
             replay, err = drv.minimise(r["plan"], derive_seed(seed, engine.NAME + ":" + prop, entry["run"]), entry["signature"])
+            if replay is None and err.startswith("UNCONFIRMED"):
+                # By this method's own standard an observation that does not replay is not a finding: it is
+                # reported and counted, never raised as an alarm (and never silently dropped)
+                print(f"# NOTE: {err}")
+                entry["unconfirmed"] = True
+                continue
             if replay is None:
                 print(f"HARNESS-ERROR {err}")
                 exit_code = max(exit_code, 2)
@@ -427,8 +435,9 @@ def check_main(engine, prop, tiers, argv=None):
             "probes_stuck_at_zero": zero_probes,
             "components": getattr(engine, "COMPONENTS", {}),
             "known_findings_seen": known_hits,
-            "violation_signatures": sorted(e.get("signature_min", e["signature"]) for e in reported.values() if not e.get("known")),
+            "violation_signatures": sorted(e.get("signature_min", e["signature"]) for e in reported.values() if not e.get("known") and not e.get("unconfirmed")),
             "harness_errors": len(harness),
+            "unconfirmed_observations": sorted(e["signature"] for e in reported.values() if e.get("unconfirmed")),
             "lanes": int(os.environ.get("VERIF_LANES", "0")) or min(16, os.cpu_count() or 1),
             "repo_digest": drv.repo_digest,
         },
